@@ -807,7 +807,7 @@ type IKCase struct {
 
 var ikKinds = []string{"put", "put", "put", "put", "get", "get", "containskey", "containsvalue",
 	"remove", "remove", "remove", "clear", "keyarray", "enum", "tostring", "toformatstring", "putall", "putall",
-	"putrange", "removerange", "removelive", "removelive"}
+	"putrange", "removerange", "removelive", "removelive", "srcput", "srcremove"}
 
 func drawIK(t *rapid.T) IKCase {
 	c := IKCase{}
@@ -834,8 +834,11 @@ func drawIK(t *rapid.T) IKCase {
 		switch k {
 		case "put":
 			op.A, op.V, op.B = drawKey(t, pool), drawVal(t), rapid.Bool().Draw(t, "strval")
-		case "get", "containskey", "remove":
+		case "get", "containskey", "remove", "srcremove":
 			op.A = drawKey(t, pool)
+			op.N = rapid.IntRange(0, 400).Draw(t, "live")
+		case "srcput":
+			op.A, op.V = drawKey(t, pool), drawVal(t)
 		case "containsvalue":
 			op.V, op.B = drawVal(t), rapid.Bool().Draw(t, "strval")
 		case "putall":
@@ -844,6 +847,12 @@ func drawIK(t *rapid.T) IKCase {
 				break
 			}
 			op.C, op.L = drawCap(t, "ocap"), drawLF(t, "olf")
+			if rapid.IntRange(0, 2).Draw(t, "samegeometry") == 0 { // source built like the receiver
+				op.C, op.L = c.Cap, c.LF
+				if c.Cap < 0 {
+					op.C, op.L = 101, 0.75
+				}
+			}
 			np := rapid.IntRange(0, 12).Draw(t, "npairs")
 			for j := 0; j < np; j++ {
 				op.P = append(op.P, Pair{K: drawKey(t, pool), V: drawVal(t)})
@@ -971,6 +980,12 @@ func runIK(c IKCase) *pbt.Result {
 	}
 	md := map[int32]interface{}{}
 	tr := newTracker(m)
+	// the sources of earlier PutAll calls stay alive: receiver and source must be independent afterwards
+	type source struct {
+		m  *hmap.IntKeyMap
+		md map[int32]interface{}
+	}
+	var sources []source
 	for i, op := range c.Ops {
 		tr.kinds[op.K] = true
 		if op.K == "removelive" {
@@ -1101,6 +1116,30 @@ func runIK(c IKCase) *pbt.Result {
 			if err := ikSame("source of PutAll afterwards", other, omd); err != nil {
 				return fail("%v", err)
 			}
+			sources = append(sources, source{other, omd})
+		case "srcput", "srcremove":
+			// change the source of the latest PutAll; the receiver must not notice
+			if len(sources) == 0 {
+				break
+			}
+			src := sources[len(sources)-1]
+			if op.K == "srcput" {
+				v := ikVal(op.V, false)
+				if g := src.m.Put(op.A, v); g != src.md[op.A] {
+					return fail("Put(%d,%v) on the source of an earlier PutAll returned %v, expected %v", op.A, v, g, src.md[op.A])
+				}
+				src.md[op.A] = v
+			} else {
+				k := op.A
+				if lk, ok := liveKey(ikKeys(src.md), op.N); ok {
+					k = lk
+				}
+				if g := src.m.Remove(k); g != src.md[k] {
+					return fail("Remove(%d) on the source of an earlier PutAll returned %v, expected %v", k, g, src.md[k])
+				}
+				delete(src.md, k)
+			}
+			tr.kinds["source-changed-after-putall"] = true
 		default:
 			panic("unknown op kind " + op.K)
 		}
@@ -1111,6 +1150,11 @@ func runIK(c IKCase) *pbt.Result {
 	}
 	if err := ikSame("final state", m, md); err != nil {
 		return &pbt.Result{Err: err}
+	}
+	for j, src := range sources {
+		if err := ikSame(fmt.Sprintf("final state of the source of PutAll number %d (changed only through its own methods)", j), src.m, src.md); err != nil {
+			return &pbt.Result{Err: err}
+		}
 	}
 	for _, op := range c.Ops {
 		if _, ok := md[op.A]; !ok {
@@ -1127,7 +1171,7 @@ const fContainsValueStub = "F121"
 
 var specIK = pbt.Register(pbt.Spec[IKCase]{
 	Prop: "C12", Name: "intkeymap",
-	Rule:  "IntKeyMap: histories of 1-60 ops (put/get/contains-key/contains-value/remove/clear/KeyArray under a hang detector/three enumerators/to-string/to-format-string/put-all from a second map or nil, put and remove ranges), int and string values, same key alphabets, capacity 0..200 x load factor 0.1..4 or the default constructor, against a Go map; " + ntRule,
+	Rule:  "IntKeyMap: histories of 1-60 ops (put/get/contains-key/contains-value/remove/clear/KeyArray under a hang detector/three enumerators/to-string/to-format-string/put-all from a second map (one time in three built with the receiver's geometry) or nil, later puts/removes on that source map, put and remove ranges; every source map stays alive and must equal its own model at the end), int and string values, same key alphabets, capacity 0..200 x load factor 0.1..4 or the default constructor, against a Go map; " + ntRule,
 	Quick: 20000, Thorough: 1000000,
 	Draw: drawIK, Run: noPanic(runIK),
 })
